@@ -144,3 +144,93 @@ def _register_read_overrides():
 _register_read_overrides()
 
 
+
+
+@contract("goodwe.protocol.ProtocolCommand.execute")
+class Execute:
+    """The protocol layer as seen from above (Inverter._read_from_socket, discover, search_inverters): assumed here,
+    proved from the transport state machine in the protocol units (C09 raises-clause, C01 delivery)."""
+    props = ("C03",)
+    args = {}
+    assumed = True
+    raises_only = (RequestRejectedException, RequestFailedException, MaxRetriesException)
+
+    def requires(self):
+        return command_wellformed(self)
+
+    def outcomes(ex, bound, excs):
+        from pyvc import inverter_harness as ih
+        return ih.execute_outcomes(ex, bound["self"], excs, bound.get("protocol"))
+
+    def make_result(ex, bound):
+        from pyvc import inverter_harness as ih
+        return ih.socket_result(ex, None, bound["self"])
+
+    def make_raised(ex, E, bound):
+        from pyvc import inverter_harness as ih
+        return ih.execute_raised(ex, E, bound["self"])
+
+
+@contract("goodwe.inverter.Inverter._read_from_socket#body")
+class ReadFromSocketBody:
+    """C09: the consecutive-failure counter, one request = one step.  success -> 0; MaxRetries / RequestFailed ->
+    +1 and reported on the raised exception; a rejection is neither a success nor a failed request."""
+    props = ("C09",)
+    target = "goodwe.inverter.Inverter._read_from_socket"
+
+
+@contract("goodwe.et.ET.read_settings_data")
+class EtReadSettingsData:
+    """loop over all settings with a per-setting handler: every id is reported (C11), only reads are issued (C18 —
+    checked on the ghost request log of an arbitrary iteration)"""
+    props = ("C11", "C18")
+    args = {}
+    mode = "inline"
+
+    def loop0_inv(data, _items, _i):
+        return list(data.keys()) == ids_of(_items[0:_i])
+
+    def loop0_state(ex, env, i):
+        return {"data": {s.id_: ex.fresh_any("val_" + s.id_) for s in env["_items"][:i]}}
+
+
+@contract("goodwe.dt.DT.read_settings_data")
+class DtReadSettingsData:
+    props = ("C18",)
+    args = {}
+    mode = "inline"
+
+    def loop0_inv(data, _items, _i):
+        return list(data.keys()) == ids_of(_items[0:_i])
+
+    def loop0_state(ex, env, i):
+        return {"data": {s.id_: ex.fresh_any("val_" + s.id_) for s in env["_items"][:i]}}
+
+
+# ---- public coroutines as seen by connect()/discover(): proved by the scenario units of pyvc.inverter_harness -----------
+def _public(key):
+    class K:
+        """raises nothing but InverterError and issues only read requests through its own protocol object — proved for
+        the body by the <family>.read_device_info / read_runtime_data scenario units (C09_only_InverterError,
+        C18_only_read_requests); used here as the callee contract of connect()/discover()"""
+        props = ("C09",)
+        args = {}
+        returns = "any"
+        raises_only = (InverterError,)
+
+        def outcomes(ex, bound, excs):
+            from pyvc import inverter_harness as ih
+            ih.note_protocol(ex, getattr(bound["self"], "_protocol", None))
+            ih.ghost(ex).requests.append(("read", None))
+            return True, excs
+
+        def make_raised(ex, E, bound):
+            return ex.new_object(RequestFailedException("failed"))
+    K.__name__ = "Public_" + key.replace(".", "_")
+    from pyvc.api import REGISTRY, Contract
+    REGISTRY[key] = Contract(key, K)
+
+
+for _fam, _mod in (("ET", "et"), ("DT", "dt"), ("ES", "es")):
+    for _m in ("read_device_info", "read_runtime_data"):
+        _public(f"goodwe.{_mod}.{_fam}.{_m}")
